@@ -37,6 +37,148 @@ class Obj(object):
     pass
 
 
+# ---- reading a cell back ---------------------------------------------------------------------------------------
+# "reading a cell back yields a plain Python value of the promised type": every case reads the written cell in
+# these basic ways (all must agree and be plain int / float / str / None) ...
+BASIC_READS = ['col[i]', 'list(col)[i]', 'row.name', 'row[name]', 'col[i-n]', 'row[int]', 'iter(row)']
+
+
+def row_pairs(row, name='c'):
+    """the value that iteration over a Row pairs with the column name"""
+    got = [val for nm, val in row if nm == name]
+    if len(got) != 1:
+        raise LookupError('iteration over the Row yields column %r %d times' % (name, len(got)))
+    return got[0]
+
+
+def basic_reads(dm, pos, name='c'):
+    col = dm[name]
+    row = dm[pos]
+    return (col[pos], list(col)[pos], getattr(row, name), row[name], col[pos - len(dm)],
+            row[dm.column_names.index(name)], row_pairs(row, name))
+
+
+def describe_reads(labels, values):
+    return ', '.join('%s -> %s %r' % (l, type(v).__name__, v) for l, v in zip(labels, values))
+
+
+# ... and the family Read/<state>/<group> reads one written cell through every other way the library offers:
+# derived columns (slices, index lists, selections, the column indexed by its table), Rows handed out by iterating
+# over the table, Rows and columns of derived tables (slice, index list, selection, copy, sort, a << empty).
+READ_GROUPS = ['direct', 'rows', 'subcol', 'subtable']
+READ_EXTRA_STATES = ['perm', 'permSelect']
+
+
+def deep_reads(dm, pos, group, name='c'):
+    """-> list of (label, value) for cell `pos` of column `name` (the table has a key column k with distinct cells)"""
+    from datamatrix import DataMatrix, operations as ops
+    n = len(dm)
+    col = dm[name]
+    kv = dm.k[pos]
+    out = []
+    if group == 'direct':
+        out.append(('col[i]', col[pos]))
+        out.append(('col[i-n]', col[pos - n]))
+        out.append(('list(col)[i]', list(col)[pos]))
+        out.append(('[x for x in col][i]', [x for x in col][pos]))
+        out.append(('tuple(col)[i]', tuple(col)[pos]))
+        out.append(('next(iter)', [x for j, x in enumerate(iter(col)) if j == pos][0]))
+        out.append(('reversed', list(reversed(list(col)))[n - 1 - pos]))
+        out.append(('dm[name][i]', dm[name][pos]))
+        out.append(('dm[colobj][i]', dm[col][pos]))
+        out.append(('getattr(dm, name)[i]', getattr(dm, name)[pos]))
+        out.append(('columns', dict(dm.columns)[name][pos]))
+        out.append(('zip(cols)', list(zip(dm.k, col))[pos][1]))
+    elif group == 'rows':
+        row = dm[pos]
+        out.append(('row.name', getattr(row, name)))
+        out.append(('row[name]', row[name]))
+        out.append(('row[int]', row[dm.column_names.index(name)]))
+        out.append(('row[int-m]', row[dm.column_names.index(name) - len(dm.column_names)]))
+        out.append(('iter(row)', row_pairs(row, name)))
+        out.append(('dict(row)', dict(iter(row))[name]))
+        out.append(('dm[i-n].name', getattr(dm[pos - n], name)))
+        out.append(('iter(dm[i-n])', row_pairs(dm[pos - n], name)))
+        rows = list(dm)
+        out.append(('list(dm)[i].name', getattr(rows[pos], name)))
+        out.append(('list(dm)[i][name]', rows[pos][name]))
+        out.append(('iter(list(dm)[i])', row_pairs(rows[pos], name)))
+        for j, r in enumerate(dm):
+            if j == pos:
+                out.append(('for row in dm: row.name', getattr(r, name)))
+                out.append(('for row in dm: iter(row)', row_pairs(r, name)))
+        sl = row.as_slice
+        out.append(('row.as_slice.name[0]', sl[name][0]))
+        out.append(('iter(row.as_slice[0])', row_pairs(sl[0], name)))
+    elif group == 'subcol':
+        out.append(('col[i:i+1][0]', col[pos:pos + 1][0]))
+        out.append(('col[:][i]', col[:][pos]))
+        out.append(('col[::-1]', col[::-1][n - 1 - pos]))
+        out.append(('list(col[i:])[0]', list(col[pos:])[0]))
+        out.append(('col[[i]][0]', col[[pos]][0]))
+        out.append(('col[(i,)][0]', col[(pos,)][0]))
+        out.append(('col[[i-n, i]][1]', col[[pos - n, pos]][1]))
+        out.append(('list(col[[i]])[0]', list(col[[pos]])[0]))
+        out.append(('col[np.array([i])][0]', col[np.array([pos])][0]))
+        out.append(('col[dm][i]', col[dm][pos]))
+        out.append(('col[dm.k == k][0]', col[dm.k == kv][0]))
+        out.append(('list(col[dm.k == k])', list(col[dm.k == kv])[0]))
+        out.append(('col[:][i:i+1][0]', col[:][pos:pos + 1][0]))
+    elif group == 'subtable':
+        subs = [('dm[i:i+1]', dm[pos:pos + 1], 0), ('dm[:]', dm[:], pos), ('dm[[i]]', dm[[pos]], 0),
+                ('dm[[i, i-n]]', dm[[pos, pos - n]], 1), ('dm.k == k', dm.k == kv, 0),
+                ('(dm.k == k) | (dm.k == k)', (dm.k == kv) | (dm.k == kv), 0), ('dm[::-1]', dm[::-1], n - 1 - pos),
+                ('dm << DataMatrix()', dm << DataMatrix(), pos), ('dm[[name, k]]', dm[[name, 'k']], pos),
+                ('dm[i:i+1] << dm[i:i+1]', dm[pos:pos + 1] << dm[pos:pos + 1], 1)]
+        srt = ops.sort(dm, by=dm.k)
+        subs.append(('ops.sort(dm, by=dm.k)', srt, list(srt.k).index(kv)))
+        for label, sub, j in subs:
+            out.append((label + '.name[j]', sub[name][j]))
+            out.append(('list(%s.name)[j]' % label, list(sub[name])[j]))
+            out.append((label + '[j].name', getattr(sub[j], name)))
+            out.append(('iter(%s[j])' % label, row_pairs(sub[j], name)))
+    else:
+        raise AssertionError(group)
+    return out
+
+
+# ---- two-step sequences: a column object (cells 0, 1, 0) of any type through a column-valued form, then a plain
+# value through a plain form; path = 'Two/<state>/<form of step 1>/<source>/<form of step 2>'
+TWO_SOURCES = ['Stored.KMixed', 'Stored.KFloat', 'Stored.KInt', 'StoredSame.KMixed', 'StoredSame.KFloat',
+               'StoredSame.KInt']
+
+
+def two_values():
+    return [1.5, None, 'x', float('nan'), ' 4.50 ', 2 ** 53 + 1, Obj(), 1.0, '3', float('inf'), np.float64(2.5), -0.0,
+            '2.75', np.float32(0.5), True]
+
+
+# ---- the CSV path: path = 'Csv/<dialect>/<position of the column>/<quoting>'
+CSV_DIALECTS = {'comma': (',', '"'), 'semi': (';', '"'), 'tab': ('\t', '"'), 'pipe1': ('|', "'"), 'comma1': (',', "'")}
+CSV_WHERE = ['only', 'first', 'middle', 'last']
+CSV_QUOTING = ['min', 'all', 'crlf']
+
+
+def csv_values():
+    return [' x', 'x ', ' x ', '  two words', 'a b', '\tx', 'x\t', ' \tx', ' ', '  ', '\t', ' \t ', '', ' caf\u00e9',
+            '\u3000x', '\xa0x', 'x\u3000', ' 12', '12 ', ' 1.5 ', ' nan', ' abc,def', 'abc, def', ' "q"', ' a;b', " it's",
+            ' x\ny', 'x\n', '\nx', ' None', ' -', '- 1', ' 1 2', ' 0x10', '1e5 ', ' inf ', ' 1_000', ' \u00b2', ' a|b',
+            'x', '1.5', '7']
+
+
+def csv_values_small():
+    return [' x', 'x ', ' ', '', ' \tx', ' abc,def', " it's", ' 12 ', '  two words']
+
+
+def read_values():
+    return [1, 2 ** 53 + 1, 2.5, 1.0, -0.0, float('nan'), float('inf'), ' 4.50 ', 'abc', '', None, np.int64(7),
+            np.float32(1.5), True]
+
+
+def read_values_small():
+    return [2 ** 53 + 1, 2.5, float('nan'), ' 4.50 ', None]
+
+
 # Outside the claim (like int64 overflow): an int or integer string beyond the float64 range written to a FloatColumn
 # raises OverflowError (float(10**400) has no value); the generator leaves such inputs out for FloatColumns.
 # (A former finding -- dm.name = <column derived from the same table> inserted by reference without coercion -- was
@@ -181,8 +323,28 @@ class C05:
             'column with and without length=0, dm[name]); the whole alphabet on 6 (state, form) pairs, 13 valid / invalid '
             'scalars on every form x 6 states, 5 on 8 forms x every state (thorough: everything x 38 values); the verdict is '
             'judged against Spec/Table.rhs_cells with n = 0 and the column must be unchanged afterwards. '
-            'thorough adds random ints/floats/strings and 6000 random (state, form, source, value) combinations. The cell is read '
-            'back through col[i], iteration and Row access (all must agree and be plain int/float/str/None). '
+            '(5) READ paths: a cell written by col[i] = v on each of 23 table states (the 21 above, rows permuted, permuted '
+            'then selected) x 3 types x 5-14 values is read back in ~90 ways in four groups: the column (col[i], col[i-n], '
+            'list / tuple / comprehension / iter, dm[name], dm[column object], dm.columns, zip), Rows (row.name, row[name], '
+            'row[int], iteration over the Row, dict(row), negative row index, the Rows handed out by list(dm) and for row in '
+            'dm, row.as_slice), derived columns (col[a:b], col[:], col[::-1], index list / tuple / NumPy index, col[dm], '
+            'col[selection]) and derived tables (dm[a:b], dm[:], dm[[i]], selection, union, reversed, a << empty, keep-only, '
+            'a << a, ops.sort: column cell, list(column), Row attribute and Row iteration of each); every read must be a plain '
+            'int/float/str/None and equal to the normal form. '
+            '(6) TWO-STEP sequences: a column object (cells 0, 1, 0) of each of the 3 types, from another / the same table, '
+            'written through each of the 9 column-valued forms into a column of each type (fresh table: all 9 x 6 x 3; the 20 '
+            'other states: 4 forms x 2 sources), THEN a plain value (1.5, "x", None; a 15-value alphabet on a 3x3x3 sub-grid) '
+            'through each of the 8 plain write forms, judged by the same normal form as a single write on the type the column '
+            'has after step 1 (the value\'s type for dm.c = value); the value column of step 1 must not change unless it was '
+            'deliberately aliased. '
+            '(7) CSV: 42 text cells with leading / trailing / inner whitespace (space, tab, ideographic / no-break space), '
+            'whitespace-only, empty, with delimiters / quotes / line feeds inside x column position (only, first, middle, last; '
+            'neighbours are numeric cells with whitespace and empty cells, which are checked too) x 5 dialects (, ; tab | with '
+            'quote characters " and \') x 3 writers (minimal quoting, quote all, CRLF line ends) (quick: full alphabet on the '
+            'comma dialect, 9 values elsewhere), judged like a cell write of the same text. '
+            'thorough adds random ints/floats/strings, 6000 random (state, form, source, value) combinations and 8000 random '
+            'two-step sequences. In EVERY case the cell is read back through col[i], list(col)[i], row.name, row[name], '
+            'col[i-n], row[int] and iteration over the Row (all must agree and be plain int/float/str/None). '
             'non-trivial = the stored value differs from the assigned object or an exception is raised; distinct by '
             '(kind, path, value)')
     trusted_base = [
@@ -192,7 +354,10 @@ class C05:
         'translator /verif/translate/gen_c05paths.py -> Gen/KC05Paths.v: guard of BaseColumn._setslicekey, scalar test of '
         'BaseColumn._tosequence, exit chain of NumericColumn._tosequence (translated); IntColumn._tosequence, '
         'IntColumn._setslicekey, _setintkey, _setsequencekey, both _setdatamatrixkey, the exits and tail of the column '
-        'branch of DataMatrix._set_col (its by-reference test is translated: k_setcol_by_reference), every assignment to _typechecking and the single exit of DataMatrix.__lshift__ (pinned by AST)',
+        'branch of DataMatrix._set_col (its by-reference test is translated: k_setcol_by_reference), every assignment to _typechecking and the single exit of DataMatrix.__lshift__ (pinned by AST); read paths pinned by AST: '
+        'BaseColumn._getintkey, NumericColumn._getintkey (self.dtype(cell), dtype = float / int), Row.__getitem__ / __getattr__ / '
+        '__iter__, DataMatrix.__iter__, no column class defines __iter__; io.readtxt: the csv.reader call (delimiter and '
+        'quotechar only), the row loop and the _fromdict tail',
         'hand-written CPython/NumPy models in Base/PyVal.v and Model/Store.v (int(), float(), math.isnan, ==, '
         'float64/int64 array stores), exercised by the correspondence',
         'harness/c05.py, harness/pyobs.py (classification of objects incl. the builtins int(s)/float(s) as grammar oracle; '
@@ -214,8 +379,9 @@ class C05:
     ]
 
     # ---- implementation runner ------------------------------------------
-    def _write(self, kind, path, v):
-        """Perform the write; return the value read back (three ways) for the addressed cell."""
+    def _write(self, kind, path, v, dm0=None):
+        """Perform the write; return the values read back (in every basic way) for the addressed cell.
+        dm0: a prepared 3-row table with column c of the kind (the second step of a two-step sequence)."""
         from datamatrix import DataMatrix, io
         ct = coltype(kind)
         pos = 1
@@ -224,6 +390,8 @@ class C05:
             _tag, state, path = path.split('/')
 
         def fresh():
+            if dm0 is not None:
+                return dm0
             if state is not None:
                 return self._state(ct, state)
             dm = DataMatrix(length=3)
@@ -334,11 +502,7 @@ class C05:
         col = dm.c
         if type(col) is not ct:
             return ('typefail', 'column type is %s, expected %s' % (type(col).__name__, ct.__name__))
-        r1 = col[pos]
-        r2 = list(col)[pos]
-        r3 = dm[pos].c
-        r4 = dm[pos]['c']
-        return ('ok', (r1, r2, r3, r4))
+        return ('ok', basic_reads(dm, pos))
 
 
     # ---- table states and column objects as values -------------------------
@@ -495,7 +659,7 @@ class C05:
         c = dm.c
         if type(c) not in kinds:
             return ('typefail', 'column type is %s' % type(c).__name__, (k2, tc, raw, kind, facts))
-        return ('ok', (c[1], list(c)[1], dm[1].c, dm[1]['c']), (k2, tc, raw, kinds[type(c)], facts))
+        return ('ok', basic_reads(dm, 1), (k2, tc, raw, kinds[type(c)], facts))
 
     def cv_applicable(self, kind, state, form, src, v):
         if form == 'CtorKw' and state != 'fresh':
@@ -528,11 +692,11 @@ class C05:
             lits = [pyobs.val(r) for r in rs]
             observed = {'read_back': pyobs.jsonable(rs[0]), 'type': type(rs[0]).__name__, 'column': kobs}
             if any(l is None for l in lits):
-                pyfail = 'read-back is not a plain int/float/str/None: %r' % ([type(r).__name__ for r in rs],)
+                pyfail = 'read-back is not a plain int/float/str/None: %s' % describe_reads(BASIC_READS, rs)
                 obs_lit = '(Raise OtherError)'
             else:
                 if len(set(lits)) != 1:
-                    pyfail = 'col[i], iteration and Row access disagree: %r' % (lits,)
+                    pyfail = 'the ways of reading the cell back disagree: %s' % describe_reads(BASIC_READS, rs)
                 obs_lit = '(Ok %s)' % lits[0]
         observed['value_cell'] = pyobs.jsonable(raw)
         observed['typechecking_before'] = tc
@@ -688,6 +852,247 @@ class C05:
             'tags': [kind, 'Zero', 'state:' + state, 'zform:' + form, pv.split(' ')[0].strip('()')],
         }
 
+    # ---- (5) every way of reading a cell back ---------------------------------
+    def _rerun_read(self, inp):
+        kind, v = inp['kind'], self._decode(inp['value'])
+        _tag, state, group = inp['path'].split('/')
+        if not self.applicable(kind, 'Read', v):
+            return None
+        ct = coltype(kind)
+        pos = {'direct': 1, 'rows': 2, 'subcol': 0, 'subtable': 1}[group] if state != 'fresh' else 1
+        pyfail = None
+        reads = None
+        with warnings.catch_warnings():
+            warnings.simplefilter('ignore')
+            try:
+                dm = self._zero_state(ct, state)
+                if len(dm) < 3 or type(dm.c) is not ct:
+                    raise LookupError('table state')
+            except Exception as e:      # noqa: BLE001  (only operations that must succeed)
+                dm = None
+                out = ('typefail', 'building the table state %s raised %s' % (state, pyobs.exn_name(e)))
+            if dm is not None:
+                try:
+                    dm.c[pos] = v
+                    out = ('ok', None)
+                except Exception as e:      # noqa: BLE001
+                    out = ('exn', pyobs.exn_name(e))
+            if out[0] == 'ok':
+                try:
+                    if type(dm.c) is not ct:
+                        raise LookupError('the column became a %s' % type(dm.c).__name__)
+                    reads = deep_reads(dm, pos, group)
+                except Exception as e:      # noqa: BLE001  (a read path that raises is judged, not a crash)
+                    out = ('typefail', 'reading the cell back (%s) raised %s: %s' % (group, pyobs.exn_name(e), e))
+        if out[0] == 'exn':
+            obs_lit = '(Raise %s)' % out[1]
+            observed = {'raises': out[1]}
+        elif out[0] == 'typefail':
+            obs_lit = '(Raise OtherError)'
+            observed = {'typefail': out[1]}
+            pyfail = out[1]
+        else:
+            labels = [l for l, _x in reads]
+            rs = [x for _l, x in reads]
+            lits = [pyobs.val(r) for r in rs]
+            observed = {'read_back': pyobs.jsonable(rs[0]), 'type': type(rs[0]).__name__, 'reads': len(rs)}
+            bad = [(l, r) for l, r, t in zip(labels, rs, lits) if t is None]
+            if bad:
+                pyfail = 'read-back is not a plain int/float/str/None: %s' % describe_reads(*zip(*bad))
+                obs_lit = '(Raise OtherError)'
+            else:
+                if len(set(lits)) != 1:
+                    odd = [(l, r) for l, r, t in zip(labels, rs, lits) if t != lits[0]]
+                    pyfail = 'the ways of reading the cell back disagree: %s gives %r, but %s' % (
+                        labels[0], rs[0], describe_reads(*zip(*odd)))
+                obs_lit = '(Ok %s)' % lits[0]
+        pv = pyobs.pyv(v)
+        return {
+            'input': inp, 'observed': observed, 'pyfail': pyfail,
+            'oracle': '(oracle %s %s %s)' % (kind, pv, obs_lit),
+            'model': '(model_agrees_k CellInt %s %s %s)' % (kind, pv, obs_lit),
+            'nontrivial': True,
+            'sig': '%s|%s|%s' % (kind, inp['path'], pv),
+            'tags': [kind, 'Read', 'state:' + state, 'read:' + group, pv.split(' ')[0].strip('()')],
+        }
+
+    # ---- (6) two-step sequences: a column object of any type first, then a plain value --------------------
+    def _rerun_two(self, inp):
+        from datamatrix import DataMatrix, MixedColumn, FloatColumn, IntColumn
+        kind, v = inp['kind'], self._decode(inp['value'])
+        _tag, state, form1, src, form2 = inp['path'].split('/')
+        kinds = {MixedColumn: 'KMixed', FloatColumn: 'KFloat', IntColumn: 'KInt'}
+        ct = coltype(kind)
+        pyfail = None
+        with warnings.catch_warnings():
+            warnings.simplefilter('ignore')
+            # step 1 (judged on its own by the family ColVal): a column object with the cells 0, 1, 0
+            try:
+                dm = self._state(ct, state)
+                col = self._source(dm, src, 1)
+                if col is None or len(dm) != 3 or type(dm.c) is not ct or len(col) != 3:
+                    return None
+                k2 = kinds[type(col)]
+                src_before = [pyobs.val(x) for x in col]
+                if form1 == 'SliceAll':
+                    dm.c[:] = col
+                elif form1 == 'Slice0n':
+                    dm.c[0:3] = col
+                elif form1 == 'SlicePart':
+                    dm.c[1:3] = col[1:3]
+                elif form1 == 'SeqKey':
+                    dm.c[[0, 1, 2]] = col
+                elif form1 == 'SeqKeyPerm':
+                    dm.c[[2, 1, 0]] = col[[2, 1, 0]]
+                elif form1 == 'DmKey':
+                    dm.c[dm.k >= 0] = col
+                elif form1 == 'SetAttr':
+                    dm.c = col
+                elif form1 == 'SetItem':
+                    dm['c'] = col
+                elif form1 == 'CtorKw':
+                    dm = DataMatrix(length=3, c=col)
+                    dm.k = 0, 1, 2
+                else:
+                    raise AssertionError(form1)
+            except AssertionError:
+                raise
+            except Exception:           # noqa: BLE001  (the first step is judged by the family ColVal)
+                return None
+            kexp = k2 if CV_FORMS[form1] == 'FSetCol' else kind
+            if not self.applicable(kexp, form2, v):
+                return None
+            aliased = dm.c is col
+            # step 2: a plain value through one of the write forms, judged like a single write
+            try:
+                if type(dm.c) is not coltype(kexp):
+                    st, res = 'typefail', 'after the first step the column is a %s, expected %s' % (
+                        type(dm.c).__name__, coltype(kexp).__name__)
+                else:
+                    st, res = self._write(kexp, form2, v, dm0=dm)
+                out = ('ok', res) if st == 'ok' else ('typefail', res)
+            except Exception as e:      # noqa: BLE001
+                out = ('exn', pyobs.exn_name(e))
+            # the value column of step 1 must not have become a view on the target
+            try:
+                src_after = [pyobs.val(x) for x in col]
+            except Exception as e:      # noqa: BLE001
+                src_after = 'raised %s' % pyobs.exn_name(e)
+        if out[0] == 'exn':
+            obs_lit = '(Raise %s)' % out[1]
+            observed = {'raises': out[1]}
+        elif out[0] == 'typefail':
+            obs_lit = '(Raise OtherError)'
+            observed = {'typefail': out[1]}
+            pyfail = out[1]
+        else:
+            rs = out[1]
+            lits = [pyobs.val(r) for r in rs]
+            observed = {'read_back': pyobs.jsonable(rs[0]), 'type': type(rs[0]).__name__}
+            if any(l is None for l in lits):
+                pyfail = 'read-back is not a plain int/float/str/None: %s' % describe_reads(BASIC_READS, rs)
+                obs_lit = '(Raise OtherError)'
+            else:
+                if len(set(lits)) != 1:
+                    pyfail = 'the ways of reading the cell back disagree: %s' % describe_reads(BASIC_READS, rs)
+                obs_lit = '(Ok %s)' % lits[0]
+        if pyfail is None and not aliased and src_after != src_before:
+            pyfail = ('writing to the target column changed the column object assigned in the first step: '
+                      '%r -> %r' % (src_before, src_after))
+        observed['column_after_step1'] = kexp
+        observed['aliased'] = aliased
+        pv = pyobs.pyv(v)
+        return {
+            'input': inp, 'observed': observed, 'pyfail': pyfail,
+            'oracle': '(oracle %s %s %s)' % (kexp, pv, obs_lit),
+            'model': '(model_agrees_k %s %s %s %s)' % (form2, kexp, pv, obs_lit),
+            'nontrivial': True,
+            'sig': '%s|%s|%s' % (kind, inp['path'], pv),
+            'tags': [kind, 'Two', 'state:' + state, 'form:' + form1, 'src:' + src, 'then:' + form2, 'became:' + kexp,
+                     pv.split(' ')[0].strip('()')],
+        }
+
+    # ---- (7) the CSV path: text cells with whitespace in every position and dialect -------------------------
+    def _rerun_csv(self, inp):
+        from datamatrix import io
+        kind, v = inp['kind'], self._decode(inp['value'])
+        _tag, dialect, where, quoting = inp['path'].split('/')
+        if not (type(v) is str and '\r' not in v and '\x00' not in v) or not self.applicable(kind, 'Csv', v):
+            return None
+        ct = coltype(kind)
+        delimiter, quotechar = CSV_DIALECTS[dialect]
+        names = {'only': ['c'], 'first': ['c', 'a', 'b'], 'middle': ['a', 'c', 'b'], 'last': ['a', 'b', 'c']}[where]
+        # neighbours: numeric text with whitespace around it (a number for every column type)
+        fill = {'a': ['0', ' 7 ', ''], 'b': ['', '8 ', ' 0']}
+        expect = {'a': 7, 'b': 8}
+        qmode, term = {'min': (csv.QUOTE_MINIMAL, '\n'), 'all': (csv.QUOTE_ALL, '\n'),
+                       'crlf': (csv.QUOTE_MINIMAL, '\r\n')}[quoting]
+        if kind == 'KInt':      # an IntColumn has no value for an empty cell
+            fill = {'a': ['0', ' 7 ', '1'], 'b': ['2', '8 ', ' 0']}
+        pyfail = None
+        os.makedirs(self.tmpdir, exist_ok=True)
+        fd, fn = tempfile.mkstemp(suffix='.csv', dir=self.tmpdir)
+        try:
+            with os.fdopen(fd, 'w', encoding='utf-8', newline='') as f:
+                w = csv.writer(f, delimiter=delimiter, quotechar=quotechar, quoting=qmode, lineterminator=term)
+                w.writerow(names)
+                for i in range(3):
+                    w.writerow([(v if i == 1 else '0') if nm == 'c' else fill[nm][i] for nm in names])
+            with warnings.catch_warnings():
+                warnings.simplefilter('ignore')
+                try:
+                    dm = io.readtxt(fn, delimiter=delimiter, quotechar=quotechar, default_col_type=ct)
+                    if type(dm.c) is not ct or len(dm) != 3 or sorted(dm.column_names) != sorted(names):
+                        out = ('typefail', 'readtxt gave %d rows, columns %r, column c of type %s' % (
+                            len(dm), dm.column_names, type(dm.c).__name__))
+                    else:
+                        out = ('ok', basic_reads(dm, 1))
+                        # the cells next to it, and above / below
+                        for nm in names:
+                            if nm != 'c':
+                                got = dm[nm][1]
+                                if type(got) not in (int, float) or got != expect[nm]:
+                                    out = ('typefail', 'the cell %r next to the text cell was read as %r' % (
+                                        fill[nm][1], got))
+                        if out[0] == 'ok' and not all(type(dm.c[i]) in (int, float) and dm.c[i] == 0 for i in (0, 2)):
+                            out = ('typefail', 'the cells "0" above / below were read as %r, %r' % (dm.c[0], dm.c[2]))
+                except Exception as e:      # noqa: BLE001
+                    out = ('exn', pyobs.exn_name(e))
+        finally:
+            try:
+                os.unlink(fn)
+            except OSError:
+                pass
+        if out[0] == 'exn':
+            obs_lit = '(Raise %s)' % out[1]
+            observed = {'raises': out[1]}
+        elif out[0] == 'typefail':
+            obs_lit = '(Raise OtherError)'
+            observed = {'typefail': out[1]}
+            pyfail = out[1]
+        else:
+            rs = out[1]
+            lits = [pyobs.val(r) for r in rs]
+            observed = {'read_back': pyobs.jsonable(rs[0]), 'type': type(rs[0]).__name__}
+            if any(l is None for l in lits):
+                pyfail = 'read-back is not a plain int/float/str/None: %s' % describe_reads(BASIC_READS, rs)
+                obs_lit = '(Raise OtherError)'
+            else:
+                if len(set(lits)) != 1:
+                    pyfail = 'the ways of reading the cell back disagree: %s' % describe_reads(BASIC_READS, rs)
+                obs_lit = '(Ok %s)' % lits[0]
+        pv = pyobs.pyv(v)
+        trivial = out[0] == 'ok' and pyfail is None and pyobs.val(v) == pyobs.val(out[1][0])
+        return {
+            'input': inp, 'observed': observed, 'pyfail': pyfail,
+            'oracle': '(oracle %s %s %s)' % (kind, pv, obs_lit),
+            'model': '(model_agrees_k CsvRead %s %s %s)' % (kind, pv, obs_lit),
+            'nontrivial': not trivial,
+            'sig': '%s|%s|%s' % (kind, inp['path'], pv),
+            'tags': [kind, 'Csv', 'dialect:' + dialect, 'where:' + where, 'quoting:' + quoting,
+                     pv.split(' ')[0].strip('()')],
+        }
+
     def applicable(self, kind, path, v):
         if path.endswith('Np') and not (type(v) in (int, float) and abs(v) < 2 ** 63 if type(v) is int else type(v) is float):
             return False
@@ -727,6 +1132,12 @@ class C05:
     def rerun(self, inp):
         if inp['path'].startswith('ColVal/'):
             return self._rerun_colval(inp)
+        if inp['path'].startswith('Read/'):
+            return self._rerun_read(inp)
+        if inp['path'].startswith('Two/'):
+            return self._rerun_two(inp)
+        if inp['path'].startswith('Csv/'):
+            return self._rerun_csv(inp)
         if inp['path'].startswith('Zero/'):
             return self._rerun_zero(inp)
         kind, path, v = inp['kind'], inp['path'], self._decode(inp['value'])
@@ -748,15 +1159,16 @@ class C05:
             observed = {'typefail': out[1]}
             pyfail = out[1]
         else:
-            r1, r2, r3, r4 = out[1]
-            lits = [pyobs.val(r) for r in (r1, r2, r3, r4)]
+            rs = out[1]
+            r1 = rs[0]
+            lits = [pyobs.val(r) for r in rs]
             observed = {'read_back': pyobs.jsonable(r1), 'type': type(r1).__name__}
             if any(l is None for l in lits):
-                pyfail = 'read-back is not a plain int/float/str/None: %r' % ([type(r).__name__ for r in (r1, r2, r3, r4)],)
+                pyfail = 'read-back is not a plain int/float/str/None: %s' % describe_reads(BASIC_READS, rs)
                 obs_lit = '(Raise OtherError)'
             else:
                 if len(set(lits)) != 1:
-                    pyfail = 'col[i], iteration and Row access disagree: %r' % (lits,)
+                    pyfail = 'the ways of reading the cell back disagree: %s' % describe_reads(BASIC_READS, rs)
                 obs_lit = '(Ok %s)' % lits[0]
         pv = pyobs.pyv(v)
         trivial = out[0] == 'ok' and pyfail is None and pyobs.val(v) == pyobs.val(out[1][0])
@@ -929,6 +1341,80 @@ class C05:
         for kind in KINDS:
             for state, form, v in zero:
                 inp = {'kind': kind, 'path': 'Zero/%s/%s' % (state, form), 'value': self._encode(v)}
+                key = repr(sorted(inp.items()))
+                if key in seen:
+                    continue
+                seen.add(key)
+                c = self.rerun(inp)
+                if c is not None:
+                    cases.append(c)
+        # (5) every way of reading a written cell back, on every table state
+        reads = []
+        for state in CV_STATES + READ_EXTRA_STATES:
+            for group in READ_GROUPS:
+                vs = read_values() if tier == 'thorough' or state in ('fresh', 'sorted', 'permSelect') \
+                    else read_values_small()
+                for v in vs:
+                    reads.append((state, group, v))
+        for kind in KINDS:
+            for state, group, v in reads:
+                c = self.rerun({'kind': kind, 'path': 'Read/%s/%s' % (state, group), 'value': self._encode(v)})
+                if c is not None:
+                    cases.append(c)
+        # (6) two steps: a column object of each type through each column-valued form, then a plain value through
+        # each plain form
+        two = []
+        for form1 in CV_FORMS:
+            for src in TWO_SOURCES:
+                for form2 in AFTER_PATHS:
+                    for v in ((1.5, None, 'x') if tier == 'thorough' or form1 == 'SliceAll' else (1.5, 'x')):
+                        two.append(('fresh', form1, src, form2, v))
+        for state in CV_STATES:
+            if state == 'fresh':
+                continue
+            for form1 in ('SliceAll', 'SeqKey', 'DmKey', 'SetAttr'):
+                for src in ('Stored.KInt', 'StoredSame.KFloat'):
+                    for form2 in ('CellInt', 'Selection'):
+                        for v in (1.5, 'x'):
+                            two.append((state, form1, src, form2, v))
+        for form1 in ('SliceAll', 'SeqKey', 'SetAttr'):
+            for src in ('Stored.KInt', 'Stored.KFloat', 'StoredSame.KMixed'):
+                for form2 in ('CellInt', 'IndexList', 'WholeSeq'):
+                    for v in two_values():
+                        two.append(('fresh', form1, src, form2, v))
+        if tier == 'thorough':
+            tv = two_values()
+            for _ in range(8000):
+                two.append((rng.choice(CV_STATES), rng.choice(sorted(CV_FORMS)), rng.choice(TWO_SOURCES),
+                            rng.choice(AFTER_PATHS), rng.choice(tv)))
+        seen = set()
+        for kind in KINDS:
+            for state, form1, src, form2, v in two:
+                if form1 == 'CtorKw' and state != 'fresh':
+                    continue
+                inp = {'kind': kind, 'path': 'Two/%s/%s/%s/%s' % (state, form1, src, form2), 'value': self._encode(v)}
+                key = repr(sorted(inp.items()))
+                if key in seen:
+                    continue
+                seen.add(key)
+                c = self.rerun(inp)
+                if c is not None:
+                    cases.append(c)
+        # (7) CSV reading: text with whitespace, whitespace-only and empty cells in every position and dialect
+        csvs = []
+        for where in CSV_WHERE:
+            for quoting in CSV_QUOTING:
+                for v in (csv_values() if tier == 'thorough' or quoting == 'min' else []):
+                    csvs.append(('comma', where, quoting, v))
+        for dialect in CSV_DIALECTS:
+            for where in CSV_WHERE:
+                for quoting in CSV_QUOTING:
+                    for v in (csv_values() if tier == 'thorough' else csv_values_small()):
+                        csvs.append((dialect, where, quoting, v))
+        seen = set()
+        for kind in KINDS:
+            for dialect, where, quoting, v in csvs:
+                inp = {'kind': kind, 'path': 'Csv/%s/%s/%s' % (dialect, where, quoting), 'value': self._encode(v)}
                 key = repr(sorted(inp.items()))
                 if key in seen:
                     continue
